@@ -4,12 +4,17 @@ import (
 	"bytes"
 	"fmt"
 	"io"
+	"math/big"
 
 	"github.com/consensys/gnark-crypto/ecc"
 	"github.com/consensys/gnark/backend/groth16"
 	"github.com/consensys/gnark/backend/plonk"
 	"github.com/consensys/gnark/backend/witness"
 	"github.com/consensys/gnark/constraint"
+	"github.com/consensys/gnark/frontend"
+	"github.com/consensys/gnark/frontend/cs/r1cs"
+	"github.com/consensys/gnark/frontend/cs/scs"
+	"github.com/consensys/gnark/std/lookup/logderivlookup"
 	"verifsim/simrt"
 )
 
@@ -79,9 +84,146 @@ func newCS(be int, curve ecc.ID) constraint.ConstraintSystem {
 	return plonk.NewCS(curve)
 }
 
+// large artefacts: sizes beyond what the generated circuits reach (limits of the encodings show
+// only there): a system with more than 2^17 inputs, a lookup table with more than 2^17/3 entries
+type bigInputsCircuit struct {
+	X []frontend.Variable
+	S frontend.Variable `gnark:",public"`
+}
+
+func (c *bigInputsCircuit) Define(api frontend.API) error {
+	var acc frontend.Variable = 0
+	for i := 0; i < len(c.X); i += 1000 {
+		acc = api.Add(acc, api.Mul(c.X[i], c.X[(i+1)%len(c.X)]))
+	}
+	api.AssertIsEqual(acc, c.S)
+	return nil
+}
+
+type bigTableCircuit struct {
+	I frontend.Variable
+	Y frontend.Variable `gnark:",public"`
+	n int
+}
+
+func (c *bigTableCircuit) Define(api frontend.API) error {
+	t := logderivlookup.New(api)
+	for i := 0; i < c.n; i++ {
+		t.Insert(3*i + 1)
+	}
+	api.AssertIsEqual(t.Lookup(c.I)[0], c.Y)
+	return nil
+}
+
+type bigFx struct {
+	ccs   constraint.ConstraintSystem
+	full  witness.Witness
+	bytes []byte
+	sol   []byte
+	err   error
+}
+
+var bigCache = map[string]*bigFx{}
+
+func bigFixture(kind string, be int, curve ecc.ID) *bigFx {
+	key := fmt.Sprintf("%s/%d/%s", kind, be, curve)
+	if f, ok := bigCache[key]; ok {
+		return f
+	}
+	f := &bigFx{}
+	bigCache[key] = f
+	q := curve.ScalarField()
+	var circuit, assignment frontend.Circuit
+	if kind == "inputs" {
+		const n = 140_000
+		circuit = &bigInputsCircuit{X: make([]frontend.Variable, n)}
+		a := &bigInputsCircuit{X: make([]frontend.Variable, n)}
+		sum := new(big.Int)
+		for i := range a.X {
+			a.X[i] = i%97 + 1
+		}
+		for i := 0; i < n; i += 1000 {
+			sum.Add(sum, big.NewInt(int64((i%97+1)*((i+1)%n%97+1))))
+		}
+		a.S = sum
+		assignment = a
+	} else {
+		const n = 45_000
+		circuit = &bigTableCircuit{n: n}
+		assignment = &bigTableCircuit{I: 31_000, Y: 3*31_000 + 1, n: n}
+	}
+	if be == beGroth16 {
+		f.ccs, f.err = frontend.Compile(q, r1cs.NewBuilder, circuit)
+	} else {
+		f.ccs, f.err = frontend.Compile(q, scs.NewBuilder, circuit)
+	}
+	if f.err != nil {
+		return f
+	}
+	if f.full, f.err = frontend.NewWitness(assignment, q); f.err != nil {
+		return f
+	}
+	sol, err := f.ccs.Solve(f.full)
+	if err != nil {
+		f.err = fmt.Errorf("solving the original large system: %w", err)
+		return f
+	}
+	f.sol = toBytes(sol)
+	f.bytes = toBytes(f.ccs)
+	return f
+}
+
+func c09Large(w *Worker, tape *simrt.Tape, o *Outcome) *Outcome {
+	kind := []string{"inputs", "table"}[tape.Choose(simrt.SWorkload, 2)]
+	be := tape.Choose(simrt.SWorkload, 2)
+	curve := w.curves()[0]
+	f := bigFixture(kind, be, curve)
+	where := beNames[be] + ":large-" + kind
+	o.Desc = fmt.Sprintf("%s/%s large constraint system (%s)", beNames[be], curve, kind)
+	o.NonTrivial = true
+	o.probe("large_artefact:" + kind)
+	if f.err != nil {
+		o.violate("fixture", "fixture:"+where, f.err.Error())
+		return o
+	}
+	rd := simrt.NewReader(f.bytes)
+	if tape.Choose(simrt.SIO, 2) == 0 {
+		rd.Chunk = simrt.TapeChunker(tape)
+	}
+	fresh := newCS(be, curve)
+	var n int64
+	var err error
+	if pan := guard(func() { n, err = fresh.ReadFrom(rd) }); pan != "" {
+		o.violate("decode-panic", "decode-panic:"+where, pan)
+		return o
+	}
+	o.Evals++
+	if err != nil {
+		o.violate("decode-failed", "decode-failed:"+where, fmt.Sprintf("reading back a genuine encoding of %d bytes failed: %v", len(f.bytes), err))
+		return o
+	}
+	if int(n) != len(f.bytes) || rd.Consumed() != len(f.bytes) {
+		o.violate("byte-count", "byte-count:"+where, fmt.Sprintf("reader reported %d bytes and consumed %d, the encoding has %d", n, rd.Consumed(), len(f.bytes)))
+		return o
+	}
+	if !bytes.Equal(toBytes(fresh), f.bytes) {
+		o.violate("reencode-differs", "reencode-differs:"+where, "re-encoding the decoded large system gives different bytes")
+		return o
+	}
+	sol, err := fresh.Solve(f.full)
+	o.Evals++
+	if err != nil || !bytes.Equal(toBytes(sol), f.sol) {
+		o.violate("decoded-behaves-differently", "decoded-behaves-differently:"+where, fmt.Sprintf("the decoded large system does not solve the witness to the original solution (err=%v)", err))
+	}
+	return o
+}
+
 func c09Run(w *Worker, tape *simrt.Tape) *Outcome {
 	o := &Outcome{}
 	ch := func(n int) int { return tape.Choose(simrt.SWorkload, n) }
+	if ch(48) == 0 {
+		return c09Large(w, tape, o)
+	}
 	curves := w.curves()
 	curve := curves[0]
 	if ch(3) == 0 {
